@@ -26,6 +26,16 @@ func TestC01_History(t *testing.T) {
 		if rapid.IntRange(0, 2).Draw(rt, "resetlatest") == 0 {
 			sc.Reset = "latest"
 		}
+		if rapid.IntRange(0, 3).Draw(rt, "skipuntil") == 0 {
+			// dcp.listener.skipUntil: older document events are dropped - also a document with an old CAS arriving after
+			// newer ones (restored / replicated documents keep their CAS). A dropped event is not a settled one.
+			sc.SkipAt = rapid.IntRange(2, 12).Draw(rt, "skipat")
+			for i := range sc.Ops {
+				if sc.Ops[i].Op == "deliver" && i%3 == 0 {
+					sc.Ops[i].Old = true
+				}
+			}
+		}
 		journal("C01", "c01hist", sc)
 		v, labels, excl := runHistory(&sc, known != nil, "C01")
 		journalDone()
